@@ -281,6 +281,12 @@ def c10translatedAgrees (cmd : Bytes) : Bool :=
   let model := decodeCommand env10 cmd
   let gen := Gen.Decode.baseHandler.handleCommand ext {} cmd
   let panicSame := model.isPanic == (match gen with | .ok _ => false | _ => true)
+  -- what the translated handler hands to the command callback is what the model decodes
+  let startedSame := match model, gen with
+    | .ok d, .ok h => (h.started.map fun (l, c, a, n) => (l.BeforeContext, l.AfterContext, l.MaxCount, c, a, n))
+        == [(d.ltx.before, d.ltx.after, d.ltx.maxc, (d.argc : Int), d.args, d.name)]
+    | .err _, .ok h => h.started.isEmpty
+    | _, _ => true
   let optsSame := match model with
     | .ok d => match d.options with
       | none => true
@@ -292,7 +298,7 @@ def c10translatedAgrees (cmd : Bytes) : Bool :=
             && sortBytes (go.entries.map fun e => e.1 ++ [0] ++ e.2) == sortBytes (mo.map fun e => e.1 ++ [0] ++ e.2)
         | _ => false
     | _ => true
-  panicSame && optsSame
+  panicSame && optsSame && startedSame
 
 def opC10Decode : List String → Res
   | [h] => match unhex h with
